@@ -61,6 +61,8 @@ def check(ctx):
             ctx.guard(_predict_rules, ctx, A, cls, m, fi, r, is_subject)
     ctx.floor("R19.2", "fit / partial_fit methods of the subject estimators", n_fit, 8)
     ctx.floor("R19.4", "predict-type methods of the subject estimators", n_pred, 11)
+    from .c17 import r178_raw_output
+    ctx.guard(r178_raw_output, ctx, "R19.9")  # repeatable prediction of the adversarial estimators: evaluation mode (shared with C17)
     ctx.guard(_ctor_verbatim, ctx, subjects + (others if ctx.tier == "thorough" else []), subjects)
     ctx.guard(_latches, ctx)
     ctx.guard(_reload_completeness, ctx)
@@ -116,6 +118,21 @@ def _leaves(t: T):
         else:
             out.append(x)
     return out
+
+
+def _scalar_like(t: T) -> bool:
+    """a Python scalar for sure: literals, len(), shape entries, int()/float()/bool() and arithmetic on those"""
+    if t.op == "const":
+        return not isinstance(const_value(t), (list, tuple, dict))
+    if t.op == "sub" and t.args[0].op == "attr" and t.args[0].args[1] == "shape":
+        return True
+    if t.op == "call" and t.args[0].op == "global" and t.args[0].args[0] in ("builtins.len", "builtins.int", "builtins.float", "builtins.bool"):
+        return True
+    if t.op == "binop":
+        return _scalar_like(t.args[1]) and _scalar_like(t.args[2])
+    if t.op == "ite":
+        return _scalar_like(t.args[1]) and _scalar_like(t.args[2])
+    return False
 
 
 def _prefit_container(holder: T, self_term: T, attr: str) -> bool:
@@ -282,6 +299,33 @@ def _predict_rules(ctx, A, cls, m, fi, r, is_subject):
         bad = True
         _note_or_ob(ctx, is_subject, "R19.4", e.func, e.node, False,
                     f"{cname}.{m} writes self.{a} ({k}): prediction alters fitted state", f"self.{a} written in {m}")
+    # in-place arithmetic on an alias of a fitted array:  b = self.beta_ ; b *= k   (ndarray.__imul__ mutates the fitted array)
+    fit_heap = None
+    for e in r.events:
+        if not (e.kind == "store" and e.data.get("tkind") == "name" and isinstance(e.node, ast.AugAssign)):
+            continue
+        v = e.data["value"]
+        cur = v.args[1] if v.op == "binop" else None
+        if cur is None:
+            continue
+        attrs = [x.args[1] for x in _leaves(cur) if x.op == "attr" and x.args[0] is r.self_term]
+        for a in attrs:
+            if fit_heap is None:
+                ff = ctx.prog.lookup_method(cls, "fit")
+                rf = A.run(ff.fq, cls_ctx=cls) if ff is not None else None
+                fit_heap = rf.final.heap if rf is not None and rf.final is not None else {}
+                fit_self = rf.self_term if rf is not None else None
+            fv = fit_heap.get((fit_self, a))
+            if fv is not None and _scalar_like(fv):
+                continue
+            if (a, e.func) in seen:
+                continue
+            seen.add((a, e.func))
+            bad = True
+            _note_or_ob(ctx, is_subject, "R19.4", e.func, e.node, False,
+                        f"{cname}.{m} applies an augmented assignment to a local alias of self.{a} (no copy): for an array this "
+                        "updates the fitted attribute in place, so repeated predictions and a fresh estimator disagree",
+                        f"self.{a} updated in place through an alias in {m}")
     for e in r.events:
         if e.kind == "call" and e.data.get("callee") in ("sklearn.utils.validation.validate_data",) and e.data["args"] \
                 and e.data["args"][0] is r.self_term:
